@@ -19,6 +19,9 @@
 EXTENDS SyltModules, Json, IOUtils
 
 MCTree == <<"main.sy", "a.sy", "exports.sy", "sub/b.sy", "sub/exports.sy", "sub/deep/c.sy">>
+MCTreeB == <<"main.sy", "geometry/math.sy", "util/list.sy", "set/b.sy", "sub/dict/c.sy", "vendor/set/exports.sy">>
+MCProgsA == {1, 2, 3, 4}
+MCProgsB == {1, 5}
 
 VARIABLES k, d, st
 tvars == <<k, d, st>>
@@ -46,7 +49,7 @@ WellFormed(j, c) ==
 
 TraceInit ==
     /\ k \in 1..N
-    /\ Assert(Rec[k].p \in 1..NProgs /\ Applicable(Rec[k].p, Rec[k].m) /\ Rec[k].v \in 0..(NVariants - 1),
+    /\ Assert(Rec[k].p \in ProgSet /\ Applicable(Rec[k].p, Rec[k].m) /\ Rec[k].v \in 0..(NVariants - 1),
               <<"record outside the universe", k>>)
     /\ d = Derive(Rec[k].p, Rec[k].m, Rec[k].v)
     /\ WellFormed(k, d)
@@ -64,7 +67,8 @@ TraceSpec == TraceInit /\ [][TraceNext]_tvars
 
 \* the specification's own invariants hold for every re-derived configuration; an accepted record really conforms
 TraceInv ==
-    /\ st = "run" => ConfigOK(d)
+    \* (in a "cross" run MC_Modules has just checked ConfigOK for exactly these configurations: not repeated)
+    /\ (st = "run" /\ Universe # "cross") => ConfigOK(d)
     /\ st = "ok" => /\ Rec[k].class = "ok" /\ Rec[k].prints = Expected[d.p].prints /\ Rec[k].status = "done"
                     /\ \A f \in Range(d.load) : ReadCount(Rec[k], f) = 1
                     /\ \A q \in DOMAIN Rec[k].twins : Rec[k].twins[q].class = "err"
